@@ -20,7 +20,6 @@ use core::{cmp::Ordering, str::FromStr};
 use icu_calendar::AnyCalendarKind;
 
 use super::{
-    calendar::month_to_month_code,
     duration::{normalized::NormalizedDurationRecord, TimeDuration},
     PlainMonthDay, PlainYearMonth,
 };
@@ -108,7 +107,7 @@ macro_rules! impl_with_fallback_method {
 
             let (month, month_code) = match (self.month, self.month_code) {
                 (Some(month), Some(mc)) => (Some(month), Some(mc)),
-                (Some(month), None) => (Some(month), Some(month_to_month_code(month)?)),
+                (Some(month), None) => (Some(month), None),
                 (None, Some(mc)) => (Some(mc.to_month_integer()).map(Into::into), Some(mc)),
                 (None, None) => (
                     Some(fallback.month()).map(Into::into),
